@@ -3,4 +3,5 @@
 From Coq Require Extraction ExtrOcamlBasic ExtrOcamlZBigInt.
 From Verif Require Import Lib.Bytes Model.Ledger.
 Extraction Language OCaml.
-Extraction "../ocaml/c08_model.ml" bz zb init step_gen op_ok store_respends utxos persisted l_keys l_txs has_cross.
+Extraction "../ocaml/c08_model.ml" bz zb init step_gen op_ok store_respends utxos persisted l_keys l_txs has_cross
+  db_step_gen db_create db_op_ok open_disk find_wal touches_others delete_blocked lib_variant.
